@@ -564,6 +564,12 @@ fn check_tcp(case: &Case, port: u16, twin: &Server<Cat>, st: &mut Stats) -> Verd
     if closer_at.is_some() {
         st.class("tcp-batch-with-a-response-less-request");
     }
+    if stream.len() > 65_536 {
+        st.class("tcp-batch-of-more-than-64-KiB");
+        if frame_bounds.iter().any(|(_, e)| (65_535..=65_538).contains(e) || *e == 131_072) && frame_bounds.last().map_or(false, |(_, e)| *e > 65_538) {
+            st.class("tcp-request-ending-at-stream-offset-65536-with-more-behind-it");
+        }
+    }
     for item in &case.tcp {
         if let Item::Padded(_, l) = item {
             st.class("tcp-request-padded-to-a-large-length");
@@ -926,15 +932,41 @@ fn case_strategy() -> impl Strategy<Value = Case> {
 
 /// TCP batches of 1-3 requests padded to lengths around powers of two and 65,535, half of them
 /// against the Tokio provider, written in at most three segments without pauses.
-fn large_request_case() -> impl Strategy<Value = Case> {
+fn large_request_case() -> BoxedStrategy<Case> {
     let near = |c: u32| (c.saturating_sub(4)..=(c + 4).min(65535)).prop_map(|v| v as u16);
     let padded = (req_spec(20, 0.02), prop_oneof![near(512), near(1024), near(2048), near(4096), near(8192), near(16384), near(32768), near(65535)]).prop_map(|(r, l)| Item::Padded(r, l));
-    (
+    let plain = (
         prop_oneof![4 => Just(4u8), 1 => Just(0u8), 1 => Just(1u8), 1 => Just(2u8), 1 => Just(3u8)],
         prop::collection::vec(prop_oneof![4 => padded.boxed(), 1 => req_spec(20, 0.02).prop_map(Item::Req).boxed()], 1..=3),
         prop::collection::vec(any::<u16>(), 0..3),
     )
-        .prop_map(|(cfg, tcp, cuts)| Case { cfg, tcp, cuts, pauses: vec![], partial_tail: None, udp_a: vec![], udp_b: vec![] })
+        .prop_map(|(cfg, tcp, cuts)| Case { cfg, tcp, cuts, pauses: vec![], partial_tail: None, udp_a: vec![], udp_b: vec![] });
+    // more than 64 KiB of pipelined requests in which a request ends exactly at (or one octet around) stream
+    // offset 65,536 or 65,537 - the size of a receive buffer that holds one maximal frame - followed by more
+    // requests; written in two or three segments
+    let around_64k = (
+        0u8..5,
+        req_spec(20, 0.0001),
+        req_spec(20, 0.0001),
+        20_000u32..45_000,
+        prop_oneof![Just(65_535u32), Just(65_536u32), Just(65_537u32), Just(65_538u32), Just(131_072u32)],
+        prop::collection::vec(req_spec(20, 0.02).prop_map(Item::Req), 1..=3),
+        prop::collection::vec(any::<u16>(), 1..3),
+    )
+        .prop_map(|(cfg, a, b, first_len, boundary, mut rest, cuts)| {
+            // frames: (2 + first_len) + (2 + second_len) = boundary (for 131,072: a third filler in between)
+            let mut tcp = vec![Item::Padded(a.clone(), first_len as u16)];
+            let mut used = 2 + first_len;
+            if boundary > 100_000 {
+                tcp.push(Item::Padded(b.clone(), 60_000));
+                used += 2 + 60_000;
+            }
+            let second = boundary - used - 2;
+            tcp.push(Item::Padded(b, second.min(65_535) as u16));
+            tcp.append(&mut rest);
+            Case { cfg, tcp, cuts, pauses: vec![], partial_tail: None, udp_a: vec![], udp_b: vec![] }
+        });
+    prop_oneof![5 => plain.boxed(), 1 => around_64k.boxed()].boxed()
 }
 
 pub fn run(ctx: &Ctx, report: &mut Report) {
